@@ -67,6 +67,8 @@ pub struct PtSide {
     pub hs: Vec<Option<PtH>>,
     pub no_open: bool,
     pub no_opendir: bool,
+    /// capabilities offered at INIT (offered again after DESTROY)
+    pub caps: fuse_backend_rs::abi::fuse_abi::FsOptions,
 }
 
 fn fail(e: &io::Error) -> StepRes {
@@ -75,7 +77,7 @@ fn fail(e: &io::Error) -> StepRes {
 
 impl PtSide {
     pub fn new(root_ino: u64) -> Self {
-        PtSide { ns: vec![Some(root_ino)], hs: Vec::new(), no_open: false, no_opendir: false }
+        PtSide { ns: vec![Some(root_ino)], hs: Vec::new(), no_open: false, no_opendir: false, caps: fuse_backend_rs::abi::fuse_abi::FsOptions::empty() }
     }
     fn node(&self, op: &J, k: &str) -> Option<u64> {
         let x = i(op, k);
@@ -139,6 +141,40 @@ impl PtSide {
                         StepRes::ok()
                     }
                     None => StepRes::new("NOSLOT"),
+                }
+            }
+            "forget_root" => {
+                fs.forget(&ctx, F::Inode::from(self.ns[0].unwrap_or(1)), u(op, "count"));
+                StepRes::ok()
+            }
+            "batch_forget" => {
+                let mut v: Vec<(F::Inode, u64)> = Vec::new();
+                for it in op["items"].as_array().cloned().unwrap_or_default() {
+                    let n = it[0].as_i64().unwrap_or(-1);
+                    if n == 0 {
+                        v.push((F::Inode::from(self.ns[0].unwrap_or(1)), it[1].as_u64().unwrap_or(1)));
+                    } else if n > 0 {
+                        if let Some(ino) = self.ns.get_mut(n as usize).and_then(|x| x.take()) {
+                            v.push((F::Inode::from(ino), 1));
+                        }
+                    }
+                }
+                fs.batch_forget(&ctx, v);
+                StepRes::ok()
+            }
+            "remount" => {
+                fs.destroy();
+                match fs.init(self.caps) {
+                    Ok(_) => {
+                        for h in self.hs.iter_mut() {
+                            *h = None;
+                        }
+                        for n in self.ns.iter_mut().skip(1) {
+                            *n = None;
+                        }
+                        StepRes::ok()
+                    }
+                    Err(e) => fail(&e),
                 }
             }
             "getattr" => {
